@@ -22,7 +22,8 @@ type Op struct {
 }
 
 type CaseHist struct {
-	Ops []Op `json:"ops"`
+	Ops []Op    `json:"ops"`
+	Env []PreOp `json:"env,omitempty"` // process-wide settings in force during the history (GOMAXPROCS, log level, environment variable, reader-style checksum service, an earlier failing encode)
 }
 
 var (
@@ -67,7 +68,7 @@ func histApply(c *CaseHist, judge func(i int, op *Op, unreadBefore []byte, consu
 	buf := &bytes.Buffer{}
 	consumed := false
 	objs := map[int]any{}
-	restore := runPrelude(nil)
+	restore := runPrelude(c.Env)
 	defer func() { restore() }()
 	for i := range c.Ops {
 		op := &c.Ops[i]
@@ -270,7 +271,7 @@ func genFrame(rt *rapid.T, label string, frames []string, allowAbsent bool, big 
 }
 
 type histStats struct {
-	offsetGT0, afterConsume, varBody, emptyBody, absentBody, staleLen, frames, slide, bigFrame, unreg, midSlide int
+	offsetGT0, afterConsume, varBody, emptyBody, absentBody, staleLen, frames, slide, bigFrame, unreg, midSlide, env int
 }
 
 func genHistory(rt *rapid.T, frames []string, withReencode bool, registry bool) (*CaseHist, *histStats) {
@@ -311,6 +312,13 @@ func genHistory(rt *rapid.T, frames []string, withReencode bool, registry bool) 
 			midTarget = tail + 1 + rapid.IntRange(0, hi-tail-1).Draw(rt, "into")
 		}
 		st.slide++
+	}
+	if rapid.IntRange(0, 5).Draw(rt, "envknob") == 5 {
+		c.Env = append(c.Env, genEnvKnob(rt))
+		if rapid.Bool().Draw(rt, "envfail") {
+			c.Env = append(c.Env, PreOp{Kind: "encfail", Type: rapid.SampledFrom(frames).Draw(rt, "failframe"), K: rapid.SampledFrom([]int{0, 1, 28, 200}).Draw(rt, "failafter")})
+		}
+		st.env++
 	}
 	if registry && rapid.IntRange(0, 9).Draw(rt, "unreg") == 9 {
 		c.Ops = append(c.Ops, Op{Kind: "unreg", Algo: rapid.SampledFrom(c14Algos).Draw(rt, "algo")})
@@ -416,6 +424,7 @@ func histRecord(c *CaseHist, st *histStats, prop string) {
 	add(st.slide, "large-buffer-mostly-consumed")
 	add(st.bigFrame, "frame>16KiB")
 	add(st.unreg, "a-checksum-service-unregistered")
+	add(st.env, "process-setting-varied(GOMAXPROCS/log-level/env/reader-style-service/earlier-failing-encode)")
 	add(st.midSlide, "frame-sized-to-make-the-buffer-slide-during-encode")
 	if st.slide > 0 && st.bigFrame > 0 {
 		cls = append(cls, "big-frame-into-mostly-consumed-large-buffer")
